@@ -8,20 +8,43 @@
 (*    reference; TLC (breadth first) keeps for each transition the first   *)
 (*    (a shortest) history reaching it and EmitAll prints it: one history  *)
 (*    per transition of the bounded model;                                 *)
-(*  * -simulate: EmitEnd prints the history of each random behaviour.      *)
+(*  * -simulate with SimSpec: the kind of call is drawn first (so that the  *)
+(*    many parameter instances of add_many do not swamp the other calls),  *)
+(*    then its arguments; EmitEnd prints the history of each behaviour.    *)
 (***************************************************************************)
-EXTENDS URLTable, Json
+EXTENDS URLTable, Json, Randomization
 
-VARIABLES hist
-gvars == <<vars, hist>>
+VARIABLES hist, pick
+gvars == <<vars, hist, pick>>
 
 GView == vars
 
 \* the call without its result (the driver records the result of the REAL table)
-GInit == Init /\ hist = <<>>
-GNext == Next /\ hist' = Append(hist, ev')
+GInit == Init /\ hist = <<>> /\ pick = "add"
+GNext == Next /\ hist' = Append(hist, ev') /\ UNCHANGED pick
 GSpec == GInit /\ [][GNext]_gvars
 
+KindSeq == <<"add", "add", "add", "out", "out", "out", "in", "in", "in", "in", "rel", "rem", "rem", "reopen",
+             "upd", "vis", "rev", "read", "read", "cout", "cout", "cin">>
+SimNext ==
+  /\ n < MaxOps
+  /\ pick' = KindSeq[RandomElement(1..Len(KindSeq))]
+  /\ LET k == pick IN
+       \/ k = "add" /\ \E b \in RandomSubset(2, Batches) : AddMany(b)
+       \/ k = "out" /\ DoCheckOut
+       \/ k = "in" /\ DoCheckIn
+       \/ k = "rel" /\ DoRelease
+       \/ k = "rem" /\ DoRemove
+       \/ k = "reopen" /\ DoReopen
+       \/ k = "upd" /\ DoUpdate
+       \/ k = "vis" /\ DoAddVisits
+       \/ k = "rev" /\ DoGetRevisit
+       \/ k = "read" /\ DoReads
+       \/ k = "cout" /\ DoConvertOut
+       \/ k = "cin" /\ DoConvertIn
+  /\ hist' = Append(hist, ev')
+SimSpec == GInit /\ [][SimNext]_gvars
+
 EmitAll == IF n > 0 THEN PrintT(<<"HIST", ToJson(hist)>>) ELSE TRUE
-EmitEnd == IF n = MaxOps THEN PrintT(<<"HIST", ToJson(hist)>>) /\ FALSE ELSE TRUE
+EmitEnd == IF n = MaxOps THEN PrintT(<<"HIST", ToJson(hist)>>) ELSE TRUE
 =============================================================================
